@@ -76,6 +76,14 @@ Definition same_counts (pattern path : string) : bool :=
   Nat.eqb (count_byte c_qm path) (count_byte c_qm pattern) &&
   Nat.eqb (count_byte c_hash path) (count_byte c_hash pattern).
 
+(* positional form: the first-'?' split of the generated path exists exactly when url_pattern
+   has one, and neither the path part nor the query part received a '%', '?' or '#': a
+   parameter written in the path part stayed there, one written in the static query too *)
+Definition same_counts_pos (pattern path : string) : bool :=
+  let '(pp, sq, f) := cut c_qm pattern in
+  let '(gp, gs, gf) := cut c_qm path in
+  Bool.eqb f gf && same_counts pp gp && same_counts sq gs.
+
 (* extracted: the parameters the router extracts from the request line (None: no route /
    request line refused) *)
 Definition gin_spec_b (extracted : option (list (string * string))) (pattern : string)
@@ -93,7 +101,7 @@ Definition gin_spec_b (extracted : option (list (string * string))) (pattern : s
             | None => false
             | Some (path, q) =>
                 (* nothing injected: no new '%', '?', '#'; and the URL is host + path + query *)
-                same_counts pattern path && url_ok_b hosts path q c
+                same_counts_pos pattern path && url_ok_b hosts path q c
             end
         end
   | None => is_none (g_call o)
